@@ -113,9 +113,9 @@ func (lc *liveConsumer) count() int {
 
 func (lc *liveConsumer) localAddr() string {
 	if lc.rtmp != nil {
-		return lc.rtmp.RC.Conn.LocalAddr().String()
+		return srv.Key(lc.rtmp.RC.Conn)
 	}
-	return lc.http.Conn.LocalAddr().String()
+	return srv.Key(lc.http.Conn)
 }
 
 func startConsumer(s *srv.Server, kind, stream string) (*liveConsumer, error) {
@@ -208,7 +208,7 @@ func runRelay(c *fw.Ctx, sc relayScenario, rng *rand.Rand) (res relayResult) {
 			if hook != nil {
 				hc = hook.Count()
 			}
-			rec.Note = fmt.Sprintf("diag: sub_start event at %s, observed %s, hook count %d, nonEmpty %d; ", ev.At.Format("05.000000"), time.Now().Format("05.000000"), hc, nonEmpty)
+			rec.Note = fmt.Sprintf("diag: consumer %s session %s sub_start event at %s, observed %s, hook count %d, nonEmpty %d; ", lc.localAddr(), ev.SessionId, ev.At.Format("15:04:05.000000"), time.Now().Format("05.000000"), hc, nonEmpty)
 		}
 		if lc.rtmp != nil {
 			lc.base = lc.rtmp.RC.BytesRead()
@@ -230,7 +230,7 @@ func runRelay(c *fw.Ctx, sc relayScenario, rng *rand.Rand) (res relayResult) {
 			res.Err = "publisher: " + err.Error()
 			return false
 		}
-		if _, ok := s.Notify.WaitSession(5*time.Second, "pub_start", pr.RC.Conn.LocalAddr().String()); !ok {
+		if _, ok := s.Notify.WaitSession(5*time.Second, "pub_start", srv.Key(pr.RC.Conn)); !ok {
 			res.Err = "publisher not accepted (pub_start not observed)"
 			return false
 		}
@@ -246,7 +246,7 @@ func runRelay(c *fw.Ctx, sc relayScenario, rng *rand.Rand) (res relayResult) {
 		return true
 	}
 	closePub := func() {
-		paddr := pr.RC.Conn.LocalAddr().String()
+		paddr := srv.Key(pr.RC.Conn)
 		pr.Close()
 		s.Notify.WaitSession(5*time.Second, "pub_stop", paddr)
 	}
